@@ -1,11 +1,14 @@
 def I(name, entry=None, **kw):
     d = dict(name=name, entry=entry or 'h_' + name, unwind=10, timeout_s=300, mem_gb=6, safety_is_property=True, cdefs={'VP_UTF8_LATIN1': 1}, bound=''); d.update(kw); return d
+def DOMLOOPS(n):
+    """sibling walks of the real DOM helpers: <= n-1 children per element (checked by the unwinding assertions)"""
+    return {r'^_ZN5QXmpp7Private17firstChildElementERK11QDomElement11QStringView': n, r'^_ZN5QXmpp7Private18nextSiblingElementERK11QDomElement11QStringView': n}
 SM_TUS = ['src/base/QXmppStreamManagement.cpp', 'src/base/QXmppUtils.cpp', 'src/base/QXmppStanza.cpp']
 MODELS = ['qt_core.c', 'qt_list.c', 'c02_dom.c', 'c02_env.c']
 SPEC = dict(
     property='C02',
     groups=[
-        dict(name='sm', harness='h_sm.cpp', tus=SM_TUS, models=MODELS,
+        dict(name='sm', harness='h_sm.cpp', tus=SM_TUS, models=MODELS, loop_bounds=DOMLOOPS(5),
              instances=[I(e) for e in ['sm_enable', 'sm_enabled', 'sm_resume', 'sm_resumed', 'sm_ack', 'sm_request', 'sm_failed']]),
     ],
     bounds=[], assumptions=[], outside=[],
